@@ -52,9 +52,10 @@ def check_instant(rm, rep, name, events, seen):
               loc=f'{mod}:{L.lineno}')
         # E[0].driving_torque produced by the motor characteristic earlier in the instant
         i = events.index(ev)
-        motor_before = any('motor' in t for t in tags[:i])
+        motor_before = any('motor' in t and any(c[1] == 'compute_torque' and c[0] == 'E[0]' for c in e2.calls)
+                           for e2, t in zip(events[:i], tags[:i]))
         _once(rep, seen, ('drv-motor', ctxname, motor_before), motor_before, 'C02.motor', f'Solver.run[{ctxname}]',
-              'the motor characteristic (compute_torque on E[0]) is not evaluated before the driving torque is propagated',
+              'the motor characteristic (compute_torque on the motor E[0]) is not evaluated before the driving torque is propagated',
               loc=f'{mod}:{L.lineno}')
     # ---- load torque
     ll = [ev for ev, t in zip(events, tags) if 'write:load_torque' in t and ev.kind == 'loop']
